@@ -121,7 +121,7 @@ CHECKS.update({
         "CPython is the reference for argv; a text that no mode runs and that hy_compile rejects is not a program (agreement only); timeouts are harness errors.",
         "cli", "2/C41"),
     "C35": (
-        "model-based property testing: enumerated require / pragma / precedence grids + Hypothesis random histories of defmacro, require (all documented shapes), pragma and scope open/close over two generated macro modules; lock-step reference model of the macro namespaces (macros= -> local innermost->outermost -> module -> core; documented name set per require shape) decides every call's expansion value, the final _hy_macros keys and the core-shadow warnings",
+        "model-based property testing: enumerated require / pragma / precedence grids + Hypothesis random histories of defmacro, require (all documented shapes), pragma and scope open/close over two generated macro modules; lock-step reference model of the macro namespaces (macros= -> local innermost->outermost -> module -> core; documented name set per require shape) decides every call's expansion value, the final _hy_macros keys and the core-shadow warnings; plus REPL sessions on one long-lived compiler in which inputs fail to compile inside a scope that defined a local macro (grid + Hypothesis histories, model = module-level definitions only)",
         "Precedence subsets and require shape x export config x place are enumerated within the stated vocabulary; histories are sampled. Every macro expands to its own integer, so the definition a call used is observable.",
         "Trusts vf/c35_model.py and hy.mangle for names; (local-macros) at places where Python variable scoping intervenes is void.",
         "macrospaces", "2/C35"),
